@@ -26,16 +26,16 @@ var rules = map[string]string{
 	"C04": "chains of 1-5 (history, crash point) epochs incl. crash points inside the recovering Open; after every recovery contents, segment sizes and file lengths are compared with model and reference",
 	"C05": "random fill with tiny segments, Compact stepped yield point by yield point with Put/Delete inserted at the yield points, optional crash inside; full comparison after, and again after an unclean reopen",
 	"C06": "histories with Sync at random points (both sync modes), rollover, compaction, an earlier recovery; at sampled instants (after any file-system event) power-loss images are built from the recorded calls: nothing unsynced / everything / one file keeps j pending operations with the next write cut at sector boundaries / random mixtures; each image is reopened and every key must hold its value as of the last completed Sync or a later write",
-	"C09": "history, Close, next Open; power-loss images at every file-system event from the return of Close to the completion of the next Open; each image must reopen to exactly the closed contents",
+	"C09": "history, Close, next Open; power-loss images at every file-system event from the return of Close to the completion of the next Open; each image must reopen to exactly the closed contents; Close with its k-th data call failing once, for every k: when it returns nil, the images right after it as well",
 	"C11": "quiescent scan call by call (each live key exactly once with its value, then done twice) and a scan interleaved with Put/Delete/Compact between Next calls on states with long chains and mid-level split pointers; returned pairs must carry a value that was put for the key; keys untouched during the scan must be returned; the sequence is compared call by call with the chain-index model",
 	"C12": "Backup stepped at its yield points (snapshot, each segment copy) with Put/Delete in between (rollover mid-backup with tiny segments), also after a recovery; the opened backup must equal the reference map at the snapshot instant; the source is compared afterwards",
 	"C15": "overwrite/delete churn with periodic Compact and clean restarts; after every Compact: directory listing equals the model's (no stray file), open handles = segments + 2, then one of Sync/Put/Delete/Backup/Close+Open must succeed; includes delete-everything-then-compact",
 	"C16": "key lengths 0,1,2,255,256,65534,65535 and value lengths around 0, 512, the remainder and the capacity of a segment; over-long keys 65536, 65537, 131071 with a stored key of the truncated length; rejected Put leaves dump and segment bytes unchanged; restart and recovery",
 	"C17": "programs of API calls (writes, deletes, compaction, restarts, simulated unclean shutdown with a torn tail) run on the harness file system, compared with the model, then replayed on fs.Mem, fs.OS and fs.OSMMap (real files): every result and the bytes (length + SHA-256) of every segment file after each Close must be identical",
 	"C13": "schedules of Acquire / next-system-call / Release / Die events of 2-4 openers of one directory, executed with real system calls (goroutines parked at the yield points between open, flock, fstat/stat, write, unlink, close) and on the extracted Coq model; after every event: who holds the lock, what each finished attempt reported (fresh / existing / locked), whether the lock path exists and is marked; fixed corpus: the historical two-holder interleaving and the flag races",
-	"C07": "2-7 goroutines issuing Put/Delete/Get/GetAppend/Has on 2-5 keys with Compact (held at its yield points), Sync, Count, Items, Backup, FileSize in the background; per-key call/return histories checked for linearizability against a register-with-delete specification (porcupine); Count against its bound",
+	"C07": "2-7 goroutines issuing Put/Delete/Get/GetAppend/Has on 2-5 keys with Compact (held at its yield points), Sync, Count, Items, Backup, FileSize in the background; per-key call/return histories checked for linearizability against a register-with-delete specification (porcupine); Count against its bound; sequential interleavings of atomic steps: Compact stepped with Puts of new keys (bucket splits) between its lock sections, compared with the micro-step model",
 	"C10": "the same workload on fs.OSMMap, fs.OS and the harness file system with Close racing with everything in every second run, SetPanicOnFault, progress watchdog, goroutine dump after Close; run again under the race detector (pgh-race)",
-	"C14": "60-160 API calls on fs.OSMMap / fs.OS / fs.Mem keeping every slice returned by Get, GetAppend and Next together with a private copy, scribbling over argument slices after each call; then overwrite all, Compact, delete all, Compact (the segments the values were read from are removed and unmapped), Close; all kept slices re-read under SetPanicOnFault",
+	"C14": "60-160 API calls on fs.OSMMap / fs.OS / fs.Mem / pass-through wrappers of fs.Mem and fs.OSMMap keeping every slice returned by Get, GetAppend and Next together with a private copy, scribbling over argument slices after each call and over half of the slices Get returned (stored values re-read afterwards); then overwrite all, Compact, delete all, Compact (the segments the values were read from are removed and unmapped), Close; all kept slices re-read under SetPanicOnFault",
 	"C18": "golden directories written by the pinned version (growth, rollover+deletes, compaction, chains; clean and unclean) opened by the current build on fs.OS and fs.OSMMap: contents and Count compared, then used, closed and reopened; their segment files decoded by the independent reader and by the Coq reader; encodeRecord and the hash function compared with the model on random inputs",
 	"C19": "database + a 6-byte record header (all corners key size 0/1/65535 x value size 0/1/2^20/2^29/2^31-1 x both types, then random) + 0/3/4096 further bytes appended to a segment; runtime.MemStats.TotalAlloc of the recovering Open must stay below 16 x the bytes on disk + 4 MiB; contents as C08",
 	"C08": "database + one of 8 kinds of damaged tail appended to a random segment (zeroes, strict prefix, bit flip in key/value/crc, garbage, valid-after-damaged, complete unacknowledged record, flip in length fields, huge claimed sizes); recovering Open compared with an independent decoder of the documented format and with the Coq reader",
